@@ -66,6 +66,7 @@ structure L where
   unbonding : Nat                                    -- operatortypes.UnbondingExpiration
   totals : List (AID × Int)                          -- StakingAssetInfo.StakingTotalAmount (key present = IsStakingAsset)
   operators : List OID                               -- registered operators (IsOperator)
+  clientChains : List String                         -- registered client chains, as the hex suffix of stakerIDs ("0x65")
   stakers : List ((SID × AID) × StakerRow)
   pools : List ((OID × AID) × Pool)
   deleg : List ((SID × AID × OID) × DelegRow)
@@ -75,11 +76,17 @@ structure L where
   sidx : List ((SID × AID × Nat) × RecKey)           -- KeyPrefixStakerUndelegationInfo
   pidx : List ((Nat × Nat) × RecKey)                 -- KeyPrefixPendingUndelegations
   holds : List (RecKey × Nat)                        -- prefixUndelegationOnHold
+  bal : List (SID × Int)                             -- native-token bank balance of a staker account (by stakerID)
+  escrow : Int                                       -- bank balance of the `delegated_pool` module account
   -- ghost history (not stored by the code): cumulative per asset
   gDep : List (AID × Int)
   gWd : List (AID × Int)
   gSlashed : List (AID × Int)
 deriving DecidableEq, Repr, Inhabited
+
+/-- assetstypes.ExocoreAssetID: the native token; it has no staker rows in x/assets, delegations are
+    escrowed in the bank module (x/delegation: DelegatedPoolName) -/
+def nativeAID : AID := "0x0000000000000000000000000000000000000000_0x0"
 
 def zeroStaker : StakerRow := ⟨0, 0, 0⟩
 def zeroPool : Pool := ⟨0, 0, Dec.zero, Dec.zero⟩
@@ -173,20 +180,30 @@ def calculateShare (s : L) (o : OID) (a : AID) (x : Int) : Except String Dec :=
   | none => .ok (Dec.ofInt x)
   | some p => if p.totalShare.raw = 0 then .ok (Dec.ofInt x) else sharesFromTokens p.totalShare x p.amount
 
-/-- x/delegation/keeper/delegation.go: delegateTo (non-native asset branch) -/
+/-- the part of delegateTo after the funds were taken from the staker: shares, pool, delegation, list -/
+def delegateCore (s : L) (st : SID) (a : AID) (o : OID) (x : Int) : Except String L := do
+  let share ← calculateShare s o a x
+  let dO := if find? s.assoc st = some o then share else Dec.zero
+  let s ← updPool s o a x 0 share dO
+  let (s, _) ← updDeleg s st a o share 0
+  pure (appendStaker s o a st)
+
+/-- x/delegation/keeper/delegation.go: delegateTo. LST/NST: funds come from the staker's withdrawable
+    row; native token: bankKeeper.DelegateCoinsFromAccountToModule into the escrow account. -/
 def delegate (s : L) (st : SID) (a : AID) (o : OID) (x : Int) : Except String L := do
   if !(0 < x) then throw "ErrAmountIsNotPositive"
   if !(s.operators.contains o) then throw "ErrOperatorNotExist"
-  match find? s.stakers (st, a) with
-  | none => throw "ErrNoStakerAssetKey"
-  | some row =>
-    if row.withdrawable < x then throw "ErrDelegationAmountTooBig"
-    let s ← updStaker s st a 0 (-x) 0
-    let share ← calculateShare s o a x
-    let dO := if find? s.assoc st = some o then share else Dec.zero
-    let s ← updPool s o a x 0 share dO
-    let (s, _) ← updDeleg s st a o share 0
-    pure (appendStaker s o a st)
+  if a = nativeAID then
+    let b := getD s.bal st 0
+    if b < x then throw "ErrInsufficientFunds"
+    delegateCore { s with bal := set s.bal st (b - x), escrow := s.escrow + x } st a o x
+  else
+    match find? s.stakers (st, a) with
+    | none => throw "ErrNoStakerAssetKey"
+    | some row =>
+      if row.withdrawable < x then throw "ErrDelegationAmountTooBig"
+      let s ← updStaker s st a 0 (-x) 0
+      delegateCore s st a o x
 
 /-- x/delegation/keeper/share.go: ValidateUndelegationAmount -/
 def validateUndelegationAmount (s : L) (o : OID) (st : SID) (a : AID) (x : Int) : Except String Dec := do
@@ -217,12 +234,17 @@ def removeShareFromOperator (s : L) (isUndelegation : Bool) (o : OID) (st : SID)
     let s ← updPool s o a (-removed) dP share.neg dO
     pure (s, removed)
 
+/-- RemoveShare: the staker row's pending figure grows by the removed tokens — only for an undelegation
+    and not for the native token ("don't update staker asset info for exo-native-token") -/
+def pendStaker (s : L) (isUndelegation : Bool) (st : SID) (a : AID) (removed : Int) : Except String L :=
+  if isUndelegation && a != nativeAID then updStaker s st a 0 0 removed else pure s
+
 /-- x/delegation/keeper/share.go: RemoveShare; returns (state, removedToken) -/
 def removeShare (s : L) (isUndelegation : Bool) (o : OID) (st : SID) (a : AID) (share : Dec) :
     Except String (L × Int) := do
   if !(0 < share.raw) then throw "ErrAmountIsNotPositive"
   let (s, removed) ← removeShareFromOperator s isUndelegation o st a share
-  let s ← (if isUndelegation then updStaker s st a 0 0 removed else pure s)
+  let s ← pendStaker s isUndelegation st a removed
   let (s, zero) ← updDeleg s st a o share.neg (if isUndelegation then removed else 0)
   let s ← (if zero then deleteStaker s o a st else pure s)
   pure (s, removed)
@@ -259,11 +281,20 @@ def release (s : L) (k : RecKey) : Except String L :=
   let c := getD s.holds k 0
   if c = 0 then .error "ErrCannotDecHoldCount" else .ok { s with holds := set s.holds k (c - 1) }
 
+/-- EndBlock's "update the staker state": native token ⇒ bankKeeper.UndelegateCoinsFromModuleToAccount
+    (delegated_pool → staker, ActualCompletedAmount); otherwise the staker row gets ActualCompletedAmount
+    as withdrawable and loses Amount from pending -/
+def creditStaker (s : L) (r : URec) : Except String L :=
+  if r.asset = nativeAID then
+    (if s.escrow < r.actual then .error "ErrInsufficientFunds"
+     else .ok { s with bal := set s.bal r.staker (getD s.bal r.staker 0 + r.actual), escrow := s.escrow - r.actual })
+  else updStaker s r.staker r.asset 0 r.actual (-r.amount)
+
 /-- completion of one record in x/delegation/keeper/abci.go: EndBlock (the body after the hold
     check; runs in a cache context, so an error skips the record without effect) -/
 def completeRecord (s : L) (r : URec) : Except String L := do
   let (s, _) ← updDeleg s r.staker r.asset r.op Dec.zero (-r.amount)
-  let s ← updStaker s r.staker r.asset 0 r.actual (-r.amount)
+  let s ← creditStaker s r
   let s ← updPool s r.op r.asset 0 (-r.amount) Dec.zero Dec.zero
   pure (deleteRecord s r)
 
@@ -359,9 +390,15 @@ def slashAssets (s : L) (o : OID) (infraction : Nat) (p : Dec) : L :=
   { s with recs := recs', pools := pools', deleg := deleg', slist := slist',
            gSlashed := (g1 ++ g2).foldl (fun g e => ghostAdd g e.1 e.2) s.gSlashed }
 
-/-- x/delegation/keeper/delegation.go: AssociateOperatorWithStaker (client chain check elided:
-    the harness only uses registered chains) -/
+/-- the client-chain part of a stakerID `0x<addr>_0x<lzID>` -/
+def chainOf (st : SID) : String :=
+  match (st.splitOn "_").reverse with
+  | x :: _ => x
+  | [] => ""
+
+/-- x/delegation/keeper/delegation.go: AssociateOperatorWithStaker -/
 def associate (s : L) (st : SID) (o : OID) : Except String L := do
+  if !(s.clientChains.contains (chainOf st)) then throw "ErrClientChainNotExist"
   if !(s.operators.contains o) then throw "ErrOperatorNotExist"
   if (find? s.assoc st).isSome then throw "ErrOperatorAlreadyAssociated"
   let mine := s.deleg.filter (fun e => e.1.1 = st ∧ e.1.2.2 = o)
